@@ -475,6 +475,54 @@ func C01(r *h.Run) {
 		}
 	}
 
+	// ---- 3c. one *Request value sent several times (a retry, a caller re-using it) with
+	// messages on either side of compress-min-bytes: each attempt's message arrives intact ----
+	for _, proto := range protos {
+		for _, comp := range []string{"gzip", "tagA"} {
+			copts := []connect.ClientOption{connect.WithCodec(h.ToyCodec{}), connect.WithCompressMinBytes(100)}
+			hopts := []connect.HandlerOption{connect.WithCodec(h.ToyCodec{})}
+			switch proto {
+			case "grpc":
+				copts = append(copts, connect.WithGRPC())
+			case "grpcweb":
+				copts = append(copts, connect.WithGRPCWeb())
+			}
+			if comp == "tagA" {
+				copts = append(copts, h.WithAcceptTag("tagA"))
+				hopts = append(hopts, h.WithTag("tagA"))
+			}
+			copts = append(copts, connect.WithSendCompression(comp))
+			var handlerGot [][]byte
+			mux := http.NewServeMux()
+			mux.Handle("/verif.Svc/Unary", connect.NewUnaryHandler("/verif.Svc/Unary", func(_ context.Context, req *connect.Request[h.Raw]) (*connect.Response[h.Raw], error) {
+				handlerGot = append(handlerGot, append([]byte(nil), req.Msg.B...))
+				return connect.NewResponse(&h.Raw{B: req.Msg.B}), nil
+			}, hopts...))
+			cl := connect.NewClient[h.Raw, h.Raw](&h.LocalClient{Handler: mux}, "http://verif.local/verif.Svc/Unary", copts...)
+			req := connect.NewRequest(&h.Raw{})
+			sizes := []int{500, 3, 100, 99, 0, 2000}
+			var sent [][]byte
+			var errs []string
+			for _, n := range sizes {
+				req.Msg.B = genPayload(rng, n)
+				sent = append(sent, append([]byte(nil), req.Msg.B...))
+				res, err := cl.CallUnary(context.Background(), req)
+				switch {
+				case err != nil:
+					errs = append(errs, fmt.Sprintf("attempt with %d bytes: %v", n, err))
+				case !bytes.Equal(res.Msg.B, req.Msg.B):
+					errs = append(errs, fmt.Sprintf("attempt with %d bytes: the echo differs", n))
+				}
+			}
+			in := map[string]any{"proto": proto, "send_compression": comp, "compress_min_bytes": 100, "one_request_value_sent_with_message_sizes": sizes}
+			r.Eval("request_reuse", fmt.Sprint(proto, comp))
+			r.Sample("request_reuse", map[string]any{"in": in, "failures": errs})
+			if len(errs) > 0 || !bytesListEq(handlerGot, sent) {
+				r.Fail(h.Failure{Key: "roundtrip/request-direction", Family: "request_reuse", What: "a Request value sent again with another message: the handler did not receive each attempt's message intact", Input: in, Expected: len(sent), Actual: map[string]any{"handler_received": len(handlerGot), "failures": errs}})
+			}
+		}
+	}
+
 	// ---- 4. the API-level reused-holder case with the proto codec ([7,0,0,3]) ----
 	for _, proto := range protos {
 		var copts []connect.ClientOption
